@@ -1,6 +1,8 @@
 Require Extraction.
 Require Import ExtrOcamlBasic.
-From QV Require Import Core.Bits Core.Pauli Core.Symp Core.Code Lattice.Planar Lattice.RotPlanar Decoders.SampleRecovery.
+From QV Require Import Core.Bits Core.Pauli Core.Symp Core.Code Lattice.Planar Lattice.RotPlanar Lattice.Color
+  Decoders.SampleRecovery Decoders.SampleRecoveryColor.
 Extraction "samp.ml" planar_sample_recovery planar_sample_recovery_ord planar_mps_recovery p_to_bsf
   rotplanar_sample_recovery rotplanar_sample_recovery_ord rotplanar_mps_recovery rc_to_bsf
-  planar_code rotplanar_code syndrome_of.
+  color_sample_recovery color_sample_recovery_ord color_mps_recovery
+  planar_code rotplanar_code color_code syndrome_of.
